@@ -168,7 +168,12 @@ func isMutating(k string) bool {
 func (l *lockstep) step(o fsx.Op) stepResult {
 	cls := fsx.OpClass(l.osx.FS, o)
 	l.keepMtime = 0
-	if o.K == "Chtimes" {
+	zeroTimes := o.K == "Chtimes" && o.N == -1
+	var mtE, mtO int64
+	if zeroTimes {
+		// the zero time asks os.Chtimes to leave the times alone: whether the modification time moves is compared
+		mtE, mtO = mtimeOf(l.emu.FS, o.P), mtimeOf(l.osx.FS, o.P)
+	} else if o.K == "Chtimes" {
 		o.N = int64(len(l.hist) + 10) // sentinel unique to this call
 		l.keepMtime = fsx.SentinelTime(o.N).UnixNano()
 	}
@@ -177,6 +182,14 @@ func (l *lockstep) step(o fsx.Op) stepResult {
 	l.hist = append(l.hist, o)
 	sr := stepResult{emu: re, os: ro}
 	base := l.fsType + "|" + cls
+	if zeroTimes && re.Err == "ok" && ro.Err == "ok" {
+		if ce, co := mtimeOf(l.emu.FS, o.P) != mtE, mtimeOf(l.osx.FS, o.P) != mtO; ce != co {
+			sr.disagree = true
+			sr.sig = fmt.Sprintf("%s|ok|zero-times-mtime-changed=%v|os=%v", base, ce, co)
+			sr.what = fmt.Sprintf("%s: %s with the zero time: the modification time changed=%v on %s but changed=%v on Linux", l.fsType, o, ce, l.fsType, co)
+			return sr
+		}
+	}
 	if re.Err == "panic" || re.Err == "deadlock" {
 		sr.fatal = true
 	}
@@ -349,10 +362,18 @@ func (l *lockstep) report(umask uint32, sr stepResult, shrinkIt bool) (suppresse
 	return false
 }
 
+func mtimeOf(v avfs.VFS, p string) int64 {
+	fi, err := v.Stat(p)
+	if err != nil {
+		return -1
+	}
+	return fi.ModTime().UnixNano()
+}
+
 // ---------- C01 ----------
 
 func c01Cfg(fsType string) gen.Cfg {
-	g := gen.Cfg{Root: "/w", Names: []string{"a", "ab", "c"}, Depth: 3, Links: true, Owners: true, Temps: true, Chdir: true,
+	g := gen.Cfg{Root: "/w", Names: []string{"a", "ab", "c"}, Depth: 3, Links: true, Owners: true, Temps: true, Chdir: true, NoChange: true,
 		Specials: true, AvoidRootOps: true}
 	if fsType == "MemFS" {
 		g.Symlinks = true
